@@ -243,18 +243,35 @@ def schema_case(args):
     return bad
 
 
-def judge(ctx: Ctx, recs, syns_by_ver, with_schemas=True):
+WITNESS_FILE = None
+
+
+def load_witnesses():
+    import gzip
+    import json
+    from harness.core import VERIF
+    f = VERIF / "findings" / "C16_witnesses.json.gz"
+    if not f.exists():
+        return set()
+    with gzip.open(f, "rt") as fh:
+        return set(json.load(fh).get("cross", []))
+
+
+def judge(ctx: Ctx, recs, syns_by_ver, with_schemas=True, collect=None, witnesses=frozenset()):
     jobs = [(r, syns_by_ver[r["ver"]]) for r in recs if len(r["hist"]) >= 2]
     res = ctx.pmap(chain_case, jobs)
     ctx.impl_replays += len(jobs)
     for (r, _), bad in zip(jobs, res):
         for what, got in bad:
-            # F-C16-cross: an operand written ##other in a schema with ANOTHER target namespace
-            foreign_other = any(st["arg"]["ns"]["f"] == "not" and sorted(st["arg"]["ns"]["t"]) == ["", "A"]
-                                for st in r["hist"][1:])
+            # F-C16-cross: an operand written ##other in a schema with ANOTHER target namespace; complete
+            # witness list of the (seed-independent) chains that fail on the pinned tree
+            import json as _json
+            k = f"{r['ver']}|{what.split(':')[0]}|{_json.dumps(r['hist'], sort_keys=True)}|{_json.dumps(got)}"
+            if collect is not None and "cross-schema" in what:
+                collect.setdefault("cross", []).append(k)
             ctx.report({"ver": r["ver"], "hist": r["hist"], "den": r["den"], "inexpr": r["inexpr"],
                         "rel": r["rel"], "observed": got, "driver": "objects"}, what,
-                       finding="F-C16-cross" if ("cross-schema" in what and foreign_other) else None)
+                       finding="F-C16-cross" if ("cross-schema" in what and k in witnesses) else None)
     if with_schemas:
         pairs = [j for j in jobs if len(j[0]["hist"]) == 2]
         res = ctx.pmap(schema_case, pairs)
@@ -329,15 +346,16 @@ def special_phase(ctx: Ctx):
     return n
 
 
-def run(ctx: Ctx):
+def run(ctx: Ctx, collect=None):
     thorough = ctx.tier == "thorough"
+    witnesses = load_witnesses()
     plans = [("1.0", 2 if thorough else 1, False), ("1.1", 2 if thorough else 1, False),
              ("1.1", 1, True)]
     total = 0
     for ver, maxops, nq in plans:
         recs = explore(ctx, ver, maxops, nq)
         syns = [r["hist"][0] for r in recs if len(r["hist"]) == 1]
-        total += judge(ctx, recs, {ver: syns})
+        total += judge(ctx, recs, {ver: syns}, collect=collect, witnesses=witnesses)
         for r in recs:
             if len(r["hist"]) == maxops + 1:
                 ctx.sample({"ver": ver, "chain": r["hist"], "must_admit": r["den"]}, 3)
